@@ -741,6 +741,12 @@ func (f *File) UpdateSidx(addIfNotExists, nonZeroEPT bool) error {
 		sidx = &SidxBox{}
 	}
 	fillSidx(sidx, refTrak, segDatas, nonZeroEPT)
+	if exists {
+		// Further top-level sidx boxes are written between the filled sidx and the first segment
+		for i := 1; i < len(f.Sidxs); i++ {
+			sidx.FirstOffset += f.Sidxs[i].Size()
+		}
+	}
 	if !exists {
 		err = insertSidx(f, segDatas, sidx)
 		if err != nil {
